@@ -8,7 +8,7 @@ from ..core import rule
 from ..dataflow import DefUse, origins
 from ..program import AnalysisError, dotted, src
 from ..core import walk_local  # inline-aware
-from .common import handler_catching, handler_body_nodes, raise_ctor_args, translation, where
+from .common import handler_catching, handler_body_nodes, raise_ctor_args, raise_targets, translation, where
 from .storelib import facts, node_desc
 from .c01 import response_status, return_status
 
@@ -304,11 +304,19 @@ def mapping_obligations(ctx, exc: str, precondition_suffix: str):
             ok = False
             got = None
             for r in raises:
-                name, args = raise_ctor_args(r)
-                if name == "PreconditionFailure" and args:
-                    got = ctx.P.try_fold(fi.module, args[0])
-                    if isinstance(got, str) and got.endswith(precondition_suffix) and got.startswith("{urn:ietf:params:xml:ns:caldav}"):
-                        ok = True
+                tgs = raise_targets(r, exc)
+                good = bool(tgs)
+                for name, args in tgs:
+                    g1 = None
+                    if name == "PreconditionFailure" and args:
+                        g1 = ctx.P.try_fold(fi.module, args[0])
+                        got = g1 if got is None or not isinstance(g1, str) else got
+                    if not (isinstance(g1, str) and g1.endswith(precondition_suffix) and g1.startswith("{urn:ietf:params:xml:ns:caldav}")):
+                        good = False
+                    else:
+                        got = g1
+                if good:
+                    ok = True
             obs.append(ctx.ob(ok, fi.qualname, where(fi, n), "%s -> %s" % (exc, precondition_suffix),
                               "store %s is answered with precondition %s" % (exc, got),
                               "%s raised by store.import_one in %s is %s" % (
